@@ -52,6 +52,8 @@ pub trait System: Send + Sync + 'static
     type Out;
 
     fn is_exclusive(&self) -> bool;
+    /// bevy 0.15: true iff a parameter buffers deferred work (`Commands`, `Deferred`); always false for exclusive systems
+    fn has_deferred(&self) -> bool;
     fn initialize(&mut self, world: &mut World);
     unsafe fn run_unsafe(&mut self, input: SystemIn<'_, Self>, world: UnsafeWorldCell) -> Self::Out;
     fn apply_deferred(&mut self, world: &mut World);
@@ -89,6 +91,8 @@ pub unsafe trait SystemParam: Sized
 {
     type State: Send + Sync + 'static;
     type Item<'w, 's>: SystemParam<State = Self::State>;
+    /// model of `SystemMeta::has_deferred`: does this parameter buffer deferred work?
+    const M_DEFERRED: bool = false;
 
     fn init_state(world: &mut World) -> Self::State;
     unsafe fn get_param<'w, 's>(state: &'s mut Self::State, world: UnsafeWorldCell<'w>) -> Self::Item<'w, 's>;
@@ -103,6 +107,7 @@ macro_rules! impl_param_tuple {
         {
             type State = ($($p::State,)*);
             type Item<'w, 's> = ($($p::Item<'w, 's>,)*);
+            const M_DEFERRED: bool = false $(|| $p::M_DEFERRED)*;
             fn init_state(world: &mut World) -> Self::State { ($($p::init_state(world),)*) }
             unsafe fn get_param<'w, 's>(state: &'s mut Self::State, world: UnsafeWorldCell<'w>) -> Self::Item<'w, 's>
             {
@@ -236,6 +241,7 @@ unsafe impl<'a, 'b> SystemParam for Commands<'a, 'b>
 {
     type State = CommandsState;
     type Item<'w, 's> = Commands<'w, 's>;
+    const M_DEFERRED: bool = true;
     fn init_state(_: &mut World) -> CommandsState { CommandsState(CommandQueue::default()) }
     unsafe fn get_param<'w, 's>(state: &'s mut CommandsState, world: UnsafeWorldCell<'w>) -> Commands<'w, 's>
     {
@@ -318,6 +324,7 @@ impl<Marker: 'static, F: SystemParamFunction<Marker>> System for FunctionSystem<
     type In = F::In;
     type Out = F::Out;
     fn is_exclusive(&self) -> bool { false }
+    fn has_deferred(&self) -> bool { self.m_state.is_some() && <F::Param as SystemParam>::M_DEFERRED }
     fn initialize(&mut self, world: &mut World)
     {
         if self.m_state.is_none()
@@ -457,6 +464,7 @@ impl<Marker: 'static, F: ExclusiveSystemParamFunction<Marker>> System for Exclus
     type In = F::In;
     type Out = F::Out;
     fn is_exclusive(&self) -> bool { true }
+    fn has_deferred(&self) -> bool { false }
     fn initialize(&mut self, _: &mut World) { self.m_inits += 1; }
     unsafe fn run_unsafe(&mut self, _: SystemIn<'_, Self>, _: UnsafeWorldCell) -> Self::Out
     {
